@@ -42,7 +42,8 @@ type unit struct {
 }
 
 // JSON form of a unit: translator/units/<Name>.json
-//   {"out": "Name", "items": [{"kind": "...", "file": "go/...", "name": "goIdent", "coq": "coq_ident"}, ...]}
+//
+//	{"out": "Name", "items": [{"kind": "...", "file": "go/...", "name": "goIdent", "coq": "coq_ident"}, ...]}
 type jItem struct {
 	Kind string `json:"kind"`
 	File string `json:"file"`
@@ -97,14 +98,30 @@ var units = []unit{
 }
 
 type parsed struct {
-	fset *token.FileSet
-	f    *ast.File
+	repo    string
+	imports map[string]string // local name -> import path
+	fset    *token.FileSet
+	f       *ast.File
 	// all top-level const/var specs of the *package directory* for constant folding
 	consts map[string]ast.Expr
 	iotas  map[string]int
 }
 
 var cache = map[string]*parsed{}
+
+// loadDir loads the constants of the package in directory rel (relative to repo).
+func loadDir(repo, rel string) (*parsed, error) {
+	ents, err := os.ReadDir(filepath.Join(repo, rel))
+	if err != nil {
+		return nil, err
+	}
+	for _, e := range ents {
+		if !e.IsDir() && strings.HasSuffix(e.Name(), ".go") && !strings.HasSuffix(e.Name(), "_test.go") {
+			return load(repo, filepath.Join(rel, e.Name()))
+		}
+	}
+	return nil, fmt.Errorf("no go files in %s", rel)
+}
 
 func load(repo, rel string) (*parsed, error) {
 	if p, ok := cache[rel]; ok {
@@ -115,7 +132,15 @@ func load(repo, rel string) (*parsed, error) {
 	if err != nil {
 		return nil, err
 	}
-	p := &parsed{fset: fset, f: f, consts: map[string]ast.Expr{}, iotas: map[string]int{}}
+	p := &parsed{repo: repo, imports: map[string]string{}, fset: fset, f: f, consts: map[string]ast.Expr{}, iotas: map[string]int{}}
+	for _, im := range f.Imports {
+		path, _ := strconv.Unquote(im.Path.Value)
+		name := path[strings.LastIndex(path, "/")+1:]
+		if im.Name != nil {
+			name = im.Name.Name
+		}
+		p.imports[name] = path
+	}
 	// collect constants of all files in the same directory (same package)
 	dir := filepath.Dir(filepath.Join(repo, rel))
 	ents, _ := os.ReadDir(dir)
@@ -196,6 +221,18 @@ func (p *parsed) evalInt(e ast.Expr, iota int, depth int) (constant.Value, error
 			}
 			if k == "math.MaxInt64" {
 				return constant.MakeInt64(int64(^uint64(0) >> 1)), nil
+			}
+			// constant of another dolt package: evaluate it in that package's directory
+			const modPrefix = "github.com/dolthub/dolt/go/"
+			if ip, ok := p.imports[id.Name]; ok && strings.HasPrefix(ip, modPrefix) {
+				q, err := loadDir(p.repo, "go/"+strings.TrimPrefix(ip, modPrefix))
+				if err != nil {
+					return nil, err
+				}
+				if v, ok := q.consts[x.Sel.Name]; ok {
+					return q.evalInt(v, q.iotas[x.Sel.Name], depth+1)
+				}
+				return nil, fmt.Errorf("constant %s not found in %s", x.Sel.Name, ip)
 			}
 		}
 		return nil, fmt.Errorf("unsupported selector in constant expression")
@@ -316,6 +353,12 @@ func (c *fnCtx) expr(e ast.Expr) (string, error) {
 		return "", fmt.Errorf("unknown identifier %s", x.Name)
 	case *ast.ParenExpr:
 		return c.expr(x.X)
+	case *ast.SelectorExpr:
+		v, err := c.p.evalInt(x, 0, 0)
+		if err != nil {
+			return "", err
+		}
+		return v.ExactString(), nil
 	case *ast.CallExpr:
 		if id, ok := x.Fun.(*ast.Ident); ok {
 			switch id.Name {
